@@ -111,3 +111,49 @@ class ShapeEval:
             if isinstance(n, (ast.Assign, ast.Return)) and getattr(n, "value", None) is not None:
                 self.shape(self.N(n.value), n.lineno)
         return self.issues
+
+
+def kron_operands(t):
+    if t[0] == "call" and t[1] == "numpy.kron" and len(t[2]) == 2:
+        return kron_operands(t[2][0]) + kron_operands(t[2][1])
+    return [t]
+
+
+def kron_dims_factorise(se: ShapeEval, rho_term, dims_term, line=None):
+    """The `dim` list handed to a subsystem routine together with kron(X1, X2, ...) must factorise every Kronecker operand:
+    consecutive groups of the list multiply to the row count of X1, X2, ... (as monomials).  Returns (ok | None, detail)."""
+    from .norm import show
+    from .symshape import monomial, product_of
+
+    ops = kron_operands(rho_term)
+    if len(ops) < 2 or dims_term[0] != "list":
+        return None, "operand is not a Kronecker product with an explicit dim list"
+    sizes = []
+    for x in ops:
+        s = se.shape(x, line)
+        if s is None:
+            return None, f"shape of {show(x)[:40]} unknown"
+        sizes.append(s[0])
+    dims = list(dims_term[1:])
+    pos = 0
+    groups = []
+    for sz, x in zip(sizes, ops):
+        want = monomial(sz)
+        if want is None:
+            return None, f"size {show(sz)} is not a monomial"
+        got = None
+        for end in range(pos + 1, len(dims) + 1):
+            mm = monomial(product_of(dims[pos:end]))
+            if mm is None:
+                return None, "dim entry is not a monomial"
+            if mm == want:
+                got = end
+                break
+        if got is None:
+            return False, (f"the entries {[show(d) for d in dims[pos:]]} of the dim list do not start with a factorisation of {show(x)[:30]} "
+                           f"(size {show(sz)}): the subsystem routine cuts the Kronecker product at the wrong places")
+        groups.append([show(d) for d in dims[pos:got]])
+        pos = got
+    if pos != len(dims):
+        return False, f"dim list has {len(dims) - pos} entries beyond the Kronecker operands"
+    return True, f"dim list factorises the operands as {groups}"
